@@ -15,15 +15,17 @@
 From Coq Require Import List ZArith NArith Bool Arith.
 Import ListNotations.
 
-(* working directories: the directory of GEOPHIRESv3.py (main() chdirs there) or any other one *)
-Inductive dir : Type := DSrc | DUser (n : nat).
+(* working directories: the directory of GEOPHIRESv3.py (main() chdirs there), the directory of another program
+   of the distribution (1 = hip_ra_x, 2 = hip_ra; their main() chdirs there), or any other one *)
+Inductive dir : Type := DSrc | DPkg (k : nat) | DUser (n : nat).
 
 (* elements of sys.argv: '' | an input file path | the client's output path geophires-result_<hash>.out | other *)
-Inductive arg : Type := AEmpty | AIn (p : nat) | AOut (k : Z) | AUser (n : nat).
+Inductive arg : Type := AEmpty | AIn (p : nat) | AOut (k : Z) | AUser (n : nat) | AHipOut.
 
 Definition dir_eqb (a b : dir) : bool :=
   match a, b with
   | DSrc, DSrc => true
+  | DPkg x, DPkg y => Nat.eqb x y
   | DUser x, DUser y => Nat.eqb x y
   | _, _ => false
   end.
@@ -34,6 +36,7 @@ Definition arg_eqb (a b : arg) : bool :=
   | AIn x, AIn y => Nat.eqb x y
   | AOut x, AOut y => Z.eqb x y
   | AUser x, AUser y => Nat.eqb x y
+  | AHipOut, AHipOut => true
   | _, _ => false
   end.
 
@@ -48,6 +51,12 @@ Section Process.
   Variables C R : Type.            (* file contents, results *)
   Variable run : C -> option R.    (* the simulation: Some result, or None when it raises / exits *)
   Variable hash : nat -> Z.        (* hash(file path): GeophiresInputParameters.__hash__ *)
+  (* A request path is kept AS GIVEN (GeophiresInputParameters stores from_file_path unchanged, hashes it
+     unchanged); the operating system resolves it against the working directory of the moment it is opened:
+     [resolve d p] = the file that path p names when the working directory is d.  An absolute path has
+     [resolve d p = p] for every d. *)
+  Variable resolve : dir -> nat -> nat.
+  Variable runh : nat -> C -> option R.   (* the HIP-RA programs (1 = hip_ra_x, 2 = hip_ra) on a file content *)
   (* the key of the client's result cache, computed from the requested path and the content its file has at
      request time.  The code under test uses [path_key] (hash of the path, content ignored); [content_key]
      (path hash AND content) is the repaired cache, kept as a named alternative. *)
@@ -64,8 +73,9 @@ Section Process.
     end.
 
   (* what the request for path p should give on the files f: the run of the content the file has NOW *)
-  Definition expected (f : fs) (p : nat) : option R :=
-    match fs_lookup p f with Some c => run c | None => None end.
+  Definition expected_with (oracle : C -> option R) (f : fs) (p : nat) : option R :=
+    match fs_lookup p f with Some c => oracle c | None => None end.
+  Definition expected (f : fs) (p : nat) : option R := expected_with run f p.
 
   Record client : Type := mkClient { caching : bool; cache : list (K * R) }.
 
@@ -89,13 +99,15 @@ Section Process.
     | h :: t, S m => h :: replace_nth m x t
     end.
 
-  (* GEOPHIRESv3.main(): chdir to the source directory FIRST, then read the file named by sys.argv[1] *)
-  Definition main_run (st : state) : state * option R :=
-    let st1 := set_cwd st DSrc in
+  (* main() of a program living in directory [pkg]: chdir there FIRST, then open the file named by sys.argv[1] -
+     a relative name is therefore looked up in the program's own directory, not in the caller's *)
+  Definition prog_run (pkg : dir) (oracle : C -> option R) (st : state) : state * option R :=
+    let st1 := set_cwd st pkg in
     match nth_error (argv st) 1 with
-    | Some (AIn p) => (st1, expected (files st) p)
+    | Some (AIn p) => (st1, expected_with oracle (files st) (resolve pkg p))
     | _ => (st1, None)
     end.
+  Definition main_run (st : state) : state * option R := prog_run DSrc run st.
 
   Inductive outcome : Type :=
   | Returned (r : R) (hit : bool)   (* a result; hit = it came out of the client's cache *)
@@ -108,7 +120,7 @@ Section Process.
     match nth_error (clients st) ci with
     | None => (st, NoSuchClient)
     | Some cl =>
-        let key := keyof p (fs_lookup p (files st)) in
+        let key := keyof p (fs_lookup (resolve (cwd st) p) (files st)) in   (* as_text() would read the caller's file *)
         match (if caching cl then cache_lookup key (cache cl) else None) with
         | Some r => (st, Returned r true)
         | None =>
@@ -129,9 +141,18 @@ Section Process.
      SAME list object (its in-place canonicalisation leaves absolute paths unchanged), main() in a try,
      cwd restored in the finally *)
   Definition cli_run (st : state) (p : nat) : state * outcome :=
+    (* the script makes its arguments absolute against the CALLER's directory before main() *)
     let stash_cwd := cwd st in
-    let (st2, res) := main_run (set_argv st [AUser 0; AIn p; AOut (hash p)]) in
-    (set_cwd st2 stash_cwd, match res with Some r => Returned r false | None => Raised end).
+    let res := expected (files st) (resolve (cwd st) p) in
+    let st2 := set_cwd (set_argv st [AUser 0; AIn p; AOut (hash p)]) DSrc in          (* main(): chdir *)
+    (set_cwd st2 stash_cwd, match res with Some r => Returned r false | None => Raised end).   (* finally *)
+
+  (* HipRaXClient / HipRaClient .get_hip_ra_result(HipRaInputParameters(p)): no cache; stash, set argv, main() of
+     the program (chdir to ITS directory), restore in a `finally` (already so in the pinned tree) *)
+  Definition hip_get (st : state) (k p : nat) : state * outcome :=
+    let (st2, res) := prog_run (DPkg k) (runh k) (set_argv st [AEmpty; AIn p; AHipOut]) in
+    (set_cwd (set_argv st2 (argv st)) (cwd st),
+     match res with Some r => Returned r false | None => Raised end).
 
   Inductive op : Type :=
   | Get (ci p : nat)            (* request file p through client ci *)
@@ -140,7 +161,8 @@ Section Process.
   | Chdir (d : dir)
   | SetArgv (a : list arg)
   | NewClient (caching : bool)
-  | Cli (p : nat).
+  | Cli (p : nat)
+  | HipGet (k p : nat).          (* request file p through a new HIP-RA client of program k *)
 
   Definition step (fixed : bool) (st : state) (o : op) : state * outcome :=
     match o with
@@ -151,6 +173,7 @@ Section Process.
     | SetArgv a => (set_argv st a, Done)
     | NewClient b => (set_clients st (clients st ++ [mkClient b []]), Done)
     | Cli p => cli_run st p
+    | HipGet k p => hip_get st k p
     end.
 
   (* one entry per operation: state before, operation, state after, outcome *)
@@ -168,7 +191,7 @@ Section Process.
   (* a fresh process: no client yet *)
   Definition init (d : dir) (a : list arg) (f : fs) : state := mkState d a f [].
 
-  Definition is_run (o : op) : bool := match o with Get _ _ | Cli _ => true | _ => false end.
+  Definition is_run (o : op) : bool := match o with Get _ _ | Cli _ | HipGet _ _ => true | _ => false end.
   Definition is_get (o : op) : bool := match o with Get _ _ => true | _ => false end.
 End Process.
 
@@ -183,6 +206,7 @@ Arguments Chdir {C}.
 Arguments SetArgv {C}.
 Arguments NewClient {C}.
 Arguments Cli {C}.
+Arguments HipGet {C}.
 Arguments mkClient {R K}.
 Arguments caching {R K}.
 Arguments cache {R K}.
@@ -223,6 +247,26 @@ Definition crun (okc : list nat) (c : nat) : option nat :=
   if existsb (Nat.eqb c) okc then Some c else None.
 Definition chash (p : nat) : Z := Z.of_nat p.
 
+(* HIP-RA results get their own names: program k on content c -> 1000 + 10 c + k; [okh] = the (k, c) that run *)
+Definition hipres (k c : nat) : nat := 1000 + 10 * c + k.
+Definition crunh (okh : list (nat * nat)) (k c : nat) : option nat :=
+  if existsb (fun x => Nat.eqb (fst x) k && Nat.eqb (snd x) c) okh then Some (hipres k c) else None.
+
+(* path resolution as a table ((directory, path) -> file); a path not listed is absolute: it names itself *)
+Fixpoint cresolve (t : list (dir * nat * nat)) (d : dir) (p : nat) : nat :=
+  match t with
+  | [] => p
+  | (d', p', f) :: r => if dir_eqb d d' && Nat.eqb p p' then f else cresolve r d p
+  end.
+
+(* what a session of the correspondence fixes: contents that run (geophires / HIP), path table, files that exist
+   before the first operation (a file of the source tree that a relative name can hit) *)
+Record cfg : Type := mkCfg {
+  g_okc : list nat; g_okh : list (nat * nat); g_rt : list (dir * nat * nat); g_files : fs nat }.
+
+(* sessions with absolute paths only, no HIP-RA content, no pre-existing file *)
+Definition plain_cfg (okc : list nat) : cfg := mkCfg okc [] [] [].
+
 Definition outcome_eqb (a b : outcome nat) : bool :=
   match a, b with
   | Returned r h, Returned r' h' => Nat.eqb r r' && Bool.eqb h h'
@@ -246,18 +290,27 @@ Definition check_restore_step (o : op nat) (b : obs) : bool :=
   then dir_eqb (o_cwd_after b) (o_cwd_before b) && list_eqb arg_eqb (o_argv_after b) (o_argv_before b)
   else true.
 
-(* refinement clause: a returned result is the run of the content the file has at request time; a
-   request whose content runs does not raise.  [f] = the files as the operations so far left them. *)
-Definition check_refines_step (okc : list nat) (f : fs nat) (o : op nat) (b : obs) : bool :=
+(* the request of an operation: (oracle of the program it addresses, path as given) *)
+Definition request_of (g : cfg) (o : op nat) : option ((nat -> option nat) * nat) :=
   match o with
-  | Get _ p | Cli p =>
-      match o_out b, expected nat nat (crun okc) f p with
+  | Get _ p | Cli p => Some (crun (g_okc g), p)
+  | HipGet k p => Some (crunh (g_okh g) k, p)
+  | _ => None
+  end.
+
+(* refinement clause: a returned result is the run of the content that the file the request names - as the
+   CALLER sees it, i.e. resolved against the caller's working directory at request time - has at request time;
+   a request whose content runs does not raise.  [f] = the files as the operations so far left them. *)
+Definition check_refines_step (g : cfg) (f : fs nat) (o : op nat) (b : obs) : bool :=
+  match request_of g o with
+  | Some (oracle, p) =>
+      match o_out b, expected_with nat nat oracle f (cresolve (g_rt g) (o_cwd_before b) p) with
       | Returned r _, Some e => Nat.eqb r e
       | Returned _ _, None => false
       | Raised, Some _ => false
       | _, _ => true
       end
-  | _ => true
+  | None => true
   end.
 
 Definition files_step (f : fs nat) (o : op nat) : fs nat :=
@@ -272,14 +325,18 @@ Definition F_MODEL : N := 1.     (* implementation differs from the model of the
 Definition F_RESTORE : N := 2.   (* property: cwd/argv not restored *)
 Definition F_REFINE : N := 3.    (* property: result is not the run of the current content *)
 Definition F_STALE : N := 4.     (* property: the same, and it is exactly the modelled path-keyed cache hit *)
+Definition F_REL : N := 5.       (* property: the same, and it is exactly the modelled resolution of a relative
+                                    request path against the program's directory instead of the caller's *)
 Definition F_HARNESS : N := 9.   (* observation list and operation list differ in length *)
 
 (* the two instances the correspondence runs *)
-Definition ptrace (okc : list nat) (fixed : bool) (d : dir) (a : list arg) (ops : list (op nat)) : list (event nat nat Z) :=
-  trace nat nat (crun okc) chash Z Z.eqb (path_key chash) fixed (init d a []) ops.
-Definition ctrace (okc : list nat) (fixed : bool) (d : dir) (a : list arg) (ops : list (op nat))
+Definition ptrace (g : cfg) (fixed : bool) (d : dir) (a : list arg) (ops : list (op nat)) : list (event nat nat Z) :=
+  trace nat nat (crun (g_okc g)) chash (cresolve (g_rt g)) (crunh (g_okh g)) Z Z.eqb (path_key chash) fixed
+        (init d a (g_files g)) ops.
+Definition ctrace (g : cfg) (fixed : bool) (d : dir) (a : list arg) (ops : list (op nat))
   : list (event nat nat (Z * option nat)) :=
-  trace nat nat (crun okc) chash (Z * option nat) (content_keq Nat.eqb) (content_key chash) fixed (init d a []) ops.
+  trace nat nat (crun (g_okc g)) chash (cresolve (g_rt g)) (crunh (g_okh g)) (Z * option nat) (content_keq Nat.eqb)
+        (content_key chash) fixed (init d a (g_files g)) ops.
 
 Definition obs_matches {K : Type} (e : event nat nat K) (b : obs) : bool :=
   dir_eqb (cwd (after e)) (o_cwd_after b) && list_eqb arg_eqb (argv (after e)) (o_argv_after b)
@@ -291,35 +348,47 @@ Definition stale_hit_as_modelled {K : Type} (e : event nat nat K) (b : obs) : bo
   | _ => false
   end.
 
+(* the request path names another file for the program (which resolves it in its own directory) than for the
+   caller, and the implementation did what the model does *)
+Definition rel_as_modelled {K : Type} (g : cfg) (e : event nat nat K) (b : obs) : bool :=
+  match eop e with
+  | Get _ p => negb (Nat.eqb (cresolve (g_rt g) (o_cwd_before b) p) (cresolve (g_rt g) DSrc p))
+               && outcome_eqb (eout e) (o_out b)
+  | HipGet k p => negb (Nat.eqb (cresolve (g_rt g) (o_cwd_before b) p) (cresolve (g_rt g) (DPkg k) p))
+                  && outcome_eqb (eout e) (o_out b)
+  | _ => false
+  end.
+
 (* codes of a session: step * 10 + code (binary numbers: cheap for the VM) *)
-Fixpoint session_codes {K : Type} (okc : list nat) (i : N) (f : fs nat) (evs : list (event nat nat K)) (os : list obs)
+Fixpoint session_codes {K : Type} (g : cfg) (i : N) (f : fs nat) (evs : list (event nat nat K)) (os : list obs)
   : list N :=
   match evs, os with
   | e :: evs', b :: os' =>
       let o := eop e in
       let m := if obs_matches e b then [] else [i * 10 + F_MODEL]%N in
       let r := if check_restore_step o b then [] else [i * 10 + F_RESTORE]%N in
-      let q := if check_refines_step okc f o b then []
-               else [i * 10 + (if stale_hit_as_modelled e b then F_STALE else F_REFINE)]%N in
-      m ++ r ++ q ++ session_codes okc (N.succ i) (files_step f o) evs' os'
+      let q := if check_refines_step g f o b then []
+               else [i * 10 + (if rel_as_modelled g e b then F_REL
+                               else if stale_hit_as_modelled e b then F_STALE else F_REFINE)]%N in
+      m ++ r ++ q ++ session_codes g (N.succ i) (files_step f o) evs' os'
   | [], [] => []
   | _, _ => [i * 10 + F_HARNESS]%N
   end.
 
 (* a session = one process: initial cwd/argv, the operations, what was observed *)
-Definition session_check (fixed : bool) (okc : list nat) (d : dir) (a : list arg) (ops : list (op nat))
+Definition session_check (fixed : bool) (g : cfg) (d : dir) (a : list arg) (ops : list (op nat))
   (os : list obs) : list N :=
-  session_codes okc 0%N [] (ptrace okc fixed d a ops) os.
+  session_codes g 0%N (g_files g) (ptrace g fixed d a ops) os.
 
 (* does the implementation behave like the given variant of the client on the whole session?
    [session_matches]: path-keyed cache (fixed = true: current client, false: client of the pinned tree);
    [session_matches_repaired]: current client with the content-keyed cache *)
 Definition all_match {K : Type} (evs : list (event nat nat K)) (os : list obs) : bool :=
   Nat.eqb (length evs) (length os) && forallb (fun eb => obs_matches (fst eb) (snd eb)) (combine evs os).
-Definition session_matches (fixed : bool) (okc : list nat) (d : dir) (a : list arg) (ops : list (op nat))
-  (os : list obs) : bool := all_match (ptrace okc fixed d a ops) os.
-Definition session_matches_repaired (fixed : bool) (okc : list nat) (d : dir) (a : list arg) (ops : list (op nat))
-  (os : list obs) : bool := all_match (ctrace okc fixed d a ops) os.
+Definition session_matches (fixed : bool) (g : cfg) (d : dir) (a : list arg) (ops : list (op nat))
+  (os : list obs) : bool := all_match (ptrace g fixed d a ops) os.
+Definition session_matches_repaired (fixed : bool) (g : cfg) (d : dir) (a : list arg) (ops : list (op nat))
+  (os : list obs) : bool := all_match (ctrace g fixed d a ops) os.
 
 (* many sessions: (number of sessions, [session * 100000 + step * 10 + code]) *)
 Fixpoint sessions_codes (k : N) (l : list (list N)) : list N :=
